@@ -301,12 +301,6 @@ def _analyze_command(
                 # Any other expansion (parameter, arithmetic, array literal, ...):
                 # find every substitution nested anywhere inside it
                 decisions.extend(_analyze_expansion(part, config, cwd, remote=remote))
-        if not parts:
-            # No parsed parts (e.g. a[$(cmd)]=1): scan the raw text
-            decisions.extend(
-                _analyze_string_cmdsubs(word_value, config, cwd, remote=remote)
-            )
-
     # 2. Check redirects
     decisions.extend(_analyze_redirects(node, config, cwd, remote=remote))
 
@@ -549,12 +543,18 @@ def _analyze_cond_node(
     kind = getattr(node, "kind", None)
     if kind == "unary-test":
         # -f file, -z string - check operand for cmdsubs
-        return _analyze_word_parts(node.operand, config, cwd, remote=remote)
+        return _analyze_word_parts(
+            node.operand, config, cwd, remote=remote, scan_raw=True
+        )
     elif kind == "binary-test":
         # $a == $b - check both operands for cmdsubs
         decisions = []
-        decisions.extend(_analyze_word_parts(node.left, config, cwd, remote=remote))
-        decisions.extend(_analyze_word_parts(node.right, config, cwd, remote=remote))
+        for operand in (node.left, node.right):
+            decisions.extend(
+                _analyze_word_parts(
+                    operand, config, cwd, remote=remote, scan_raw=True
+                )
+            )
         return decisions
     elif kind in ("cond-and", "cond-or"):
         # expr1 && expr2, expr1 || expr2 - recurse both sides
@@ -572,9 +572,13 @@ def _analyze_cond_node(
 
 
 def _analyze_word_parts(
-    word, config: Config, cwd: Path, *, remote: bool = False
+    word, config: Config, cwd: Path, *, remote: bool = False, scan_raw: bool = False
 ) -> list[Decision]:
-    """Analyze word parts for command/process substitutions, including nested ones."""
+    """Analyze word parts for command/process substitutions, including nested ones.
+
+    scan_raw: also scan the raw text of a word without parsed parts ([[ ]]
+    operands such as a[$(cmd)] are evaluated by bash but carry no parts).
+    """
     decisions = []
     parts = getattr(word, "parts", [])
     for part in parts:
@@ -607,8 +611,7 @@ def _analyze_word_parts(
         else:
             # Parameter, arithmetic, array, ... expansion: generic descent
             decisions.extend(_analyze_expansion(part, config, cwd, remote=remote))
-    if not parts:
-        # No parsed parts (e.g. subscripted name in [[ ]]): scan the raw text
+    if not parts and scan_raw:
         value = getattr(word, "value", None)
         if isinstance(value, str):
             decisions.extend(_analyze_string_cmdsubs(value, config, cwd, remote=remote))
